@@ -55,7 +55,10 @@ def show(f, rng, kw):
         if f['name'] == 'bool' and f['spell'] == 'bare': return 'bool'
         if f['spell'] == 'joined': return f"{f['name']}{f['n']}"
         if f['spell'] == 'kw':
-            k = f"len{len(kw)}"; kw[k] = f['n']; return f"{f['name']}:{k}"
+            # keyword names include ones that are tails of token names ('ue' = 'u' + 'e', 'hex' = 'h' + 'ex', ...): a token must never be re-read as name + keyword
+            pool = [x for x in ('e', 'ex', 'ie', 'in', 'it', 'its', 'ool', 'ytes', 'int', 'x', 'n', 'ad', 'loat', 'ct') if x not in kw]
+            k = pool[(len(kw) * 5 + f['n']) % len(pool)] if pool and (f['n'] + len(kw)) % 2 == 0 else f"len{len(kw)}"
+            kw[k] = f['n']; return f"{f['name']}:{k}"
         return f"{f['name']}{sp()}:{sp()}{f['n']}"
     if t == 'var': return f['name']
     if t == 'stretch': return f['name']
@@ -116,7 +119,7 @@ def rand_value(rng, name, n):
         v = rng.random() < 0.5; return v, '1' if v else '0', v
     if name == 'pad': return None, '0' * n, None
     if name == 'float':
-        v = rng.choice([0.0, 1.5, -2.25, 1e-3, 100.0]); code = {16: 'e', 32: 'f', 64: 'd'}[n]
+        v = rng.choice([0.0, -0.0, 0.0, -0.0, 1.5, -2.25, 1e-3, 100.0]); code = {16: 'e', 32: 'f', 64: 'd'}[n]
         b = struct.pack('>' + code, v); return v, ''.join(format(x, '08b') for x in b), ['f', struct.unpack('>' + code, b)[0].hex()]
     if name in GC:
         from props.c10 import ref_enc
@@ -177,6 +180,9 @@ def gen_cases(rng, tier):
     bad = ['(uint:8', 'uint:8)', '2*(uint:8', 'x*(uint8), 2*(uint8)', '*(uint:8)', '2*', 'uint:8,,(', '((uint:8)', ')(', '3*(', 'a*(b*(c))', '2*(uint8))', 'uint:8=1=2', ':8', 'uint::8', '2**uint8', '-1*(uint8)', '1.5*(uint8)']
     for s in bad:
         yield {'op': 'malformed', 'fmt': s}
+    for depth in (50, 400, 1100, 3000):
+        yield {'op': 'malformed', 'fmt': '(' * depth + 'uint:8' + ')' * depth}
+        yield {'op': 'malformed', 'fmt': '2*(' * min(depth, 12) + 'uint:8' + ')' * min(depth, 12)}
     for _ in range(60 if tier == 'quick' else 1500):
         chars = '()*,:=0123456789 uintbhexabc<>'
         yield {'op': 'malformed', 'fmt': ''.join(rng.choice(chars) for _ in range(rng.randrange(1, 14)))}
